@@ -81,12 +81,32 @@ func (c *Ctx) posf() cfgx.Posf { return c.P.Pos }
 func (c *Ctx) fn(pkg, name string) *ssa.Function {
 	f := c.P.Func(pkg, name)
 	if f == nil || f.Blocks == nil {
+		f = c.byName(pkg, name)
+	}
+	if f == nil || f.Blocks == nil {
 		c.R.Unknown("anchor "+pkg+"."+name, "", "anchored function not found: the rule cannot be decided on this tree")
 		return nil
 	}
 	c.R.Analysed(load.FuncName(f))
 	c.mech(f)
 	return f
+}
+
+// byName: an anchor that changed its kind (a function made a method of some
+// type, a method made a function or moved to another receiver) is still the
+// anchor when exactly one declared function of the package bears the name.
+func (c *Ctx) byName(pkg, name string) *ssa.Function {
+	var found *ssa.Function
+	for _, f := range c.P.PkgFunctions(pkg) {
+		if f.Parent() != nil || f.Name() != name {
+			continue
+		}
+		if found != nil {
+			return nil
+		}
+		found = f
+	}
+	return found
 }
 
 // mech records a function the property's mechanism lives in.
@@ -102,6 +122,9 @@ func (c *Ctx) mech(f *ssa.Function) {
 // method resolves a method anchor.
 func (c *Ctx) method(pkg, typ, name string) *ssa.Function {
 	f := c.P.Method(pkg, typ, name)
+	if f == nil || f.Blocks == nil {
+		f = c.byName(pkg, name)
+	}
 	if f == nil || f.Blocks == nil {
 		c.R.Unknown("anchor "+pkg+"."+typ+"."+name, "", "anchored method not found: the rule cannot be decided on this tree")
 		return nil
